@@ -1109,3 +1109,14 @@ def _ln_1p(m, c):
 def _uf1(m, c):
     x = m.strip(c.args[0])
     return F(m.ufun(c.cal.method, x.z()))
+
+
+# ------------------------------------------------------------------ internment
+@model("Intern::new", "Intern::from", "Intern::from_ref")
+def _intern_new(m, c):
+    return m.strip(c.args[0])
+
+
+@model("Intern::as_ref")
+def _intern_as_ref(m, c):
+    return c.args[0]
